@@ -1187,8 +1187,10 @@ func checkJSON(c JSONCase) *pk.Failure {
 		da, db := json.NewDecoder(strings.NewReader(a)), json.NewDecoder(strings.NewReader(b))
 		da.UseNumber()
 		db.UseNumber()
-		if da.Decode(&x) != nil || db.Decode(&y) != nil || !sameJSON(x, y) {
-			fails = append(fails, pk.Failf("json", "json-text-differs:"+jsonFeature(v), "to_json differs between the libraries:\n  vm   = %s\n  tree = %s\n%s", a, b, ctx))
+		if da.Decode(&x) != nil || db.Decode(&y) != nil {
+			fails = append(fails, pk.Failf("json", "json-text-differs:undecodable", "to_json output is not JSON:\n  vm   = %s\n  tree = %s\n%s", a, b, ctx))
+		} else if !sameJSON(x, y) {
+			fails = append(fails, pk.Failf("json", "json-text-differs:"+jsonDocDiff(x, y), "to_json differs between the libraries:\n  vm   = %s\n  tree = %s\n%s", a, b, ctx))
 		} else {
 			pk.Class("doubt:json-text-lexical-difference")
 		}
@@ -1201,6 +1203,61 @@ func msgLine(s string) string {
 		return s[:i]
 	}
 	return s
+}
+
+// jsonDocDiff names the first difference between two decoded documents.
+func jsonDocDiff(x, y interface{}) string {
+	switch a := x.(type) {
+	case []interface{}:
+		b, ok := y.([]interface{})
+		if !ok {
+			return "type"
+		}
+		if len(a) != len(b) {
+			return "array-length"
+		}
+		for i := range a {
+			if !sameJSON(a[i], b[i]) {
+				return jsonDocDiff(a[i], b[i])
+			}
+		}
+	case map[string]interface{}:
+		b, ok := y.(map[string]interface{})
+		if !ok {
+			return "type"
+		}
+		for k := range a {
+			if _, has := b[k]; !has {
+				return "object-keys"
+			}
+		}
+		if len(a) != len(b) {
+			return "object-keys"
+		}
+		for _, k := range sortedKeysOf(a) {
+			if !sameJSON(a[k], b[k]) {
+				return jsonDocDiff(a[k], b[k])
+			}
+		}
+	case json.Number:
+		if _, ok := y.(json.Number); ok {
+			return "number"
+		}
+		return "type"
+	}
+	if reflect.TypeOf(x) != reflect.TypeOf(y) {
+		return "type"
+	}
+	return "value"
+}
+
+func sortedKeysOf(m map[string]interface{}) []string {
+	ks := make([]string, 0, len(m))
+	for k := range m {
+		ks = append(ks, k)
+	}
+	sort.Strings(ks)
+	return ks
 }
 
 // sameJSON: same document up to key order and number spelling (1.0 ~ 1).
